@@ -80,6 +80,14 @@ Proof.
   - use fid_expo_invariant.
 Qed.
 
+Lemma main_bosonic l N detsum :
+  bos_mean_photon F c' (map (fun t => match t with (w, tr, dot) => (w, lam * lam * tr, lam * lam * dot) end) l)
+  = bos_mean_photon F c l
+  /\ (detsum <> f0 F -> bos_fid_prefsq F c' N (kpow F (lam * lam) (2 * N) * detsum) = bos_fid_prefsq F c N detsum).
+Proof.
+  split; [use bos_mean_photon_invariant|]. intro Hd. use bos_fid_prefsq_invariant.
+Qed.
+
 Lemma main_parity_full N numsq detcov :
   detcov <> f0 F ->
   parity_sq F c' N numsq (kpow F (lam * lam) (2 * N) * detcov) = parity_sq F c N numsq detcov.
